@@ -184,6 +184,11 @@ class Client:
                     raise Error("Connection closed by server")
                 if m.group(1) == b"NO":
                     self.__parse_error(m.group(2))
+                elif m.group(2):
+                    # human readable text sent as a literal: consume it
+                    lm = re.search(rb"\{(\d+)\+?\}$", m.group(2))
+                    if lm:
+                        self.__read_block(int(lm.group(1)) + len(CRLF))
                 raise Response(m.group(1), m.group(2))
         return ret
 
